@@ -8,6 +8,12 @@ rate in history and optimizer, best/last epoch, user entries (types and values; 
 specification's awkward strings) are compared with the spec after every update; the history recorded
 with restarts is compared with the uninterrupted one.
 
+Parameter groups (TrainCtl!optlr is a vector; TrainCtlOpt.tla follows the life of each optimizer object): the
+optimizer of every replay has two groups; the set-ups "optimizer's own default rate", "group 2 constructed with its
+own rate" and "history file alone, no state directory" are checked by TLC (a reduction writes the recorded rate into
+EVERY group whatever it held; otherwise groups are left alone) and the exported behaviours - restarts included -
+are replayed, the optimizer's groups projected onto the specification's values after every load and update.
+
 TrainCtlRb.tla: roll-back.  A run is resumed from an earlier epoch (same or rebuilt controller) and the
 following epochs are reported again through the documented `epoch` argument; the declarative tracker is
 recomputed over the chain of epochs leading to the reported one; TLC checks the same rules; replay."""
@@ -24,6 +30,9 @@ from . import _tc
 PROP = "C15"
 MOD = os.path.join(SPECS, "TrainCtlMC.tla")
 ACTIONS = ["Init", "UpdateForEpoch", "Restart"]
+MOD_OPT = os.path.join(SPECS, "TrainCtlOpt.tla")
+ACTIONS_OPT = ["OInit", "OUpdate", "ORestart"]
+GROUPS = 2  # parameter groups of the replayed optimizer (TrainCtl!NG)
 MOD_RB = os.path.join(SPECS, "TrainCtlRb.tla")
 ACTIONS_RB = ["RbInit", "Report", "Rollback"]
 ENT = "note"  # entry set of _tc.Sim: the spec's str entry first, then int / float / str
@@ -33,6 +42,23 @@ def _close(a, b):
     return abs(a - b) <= 1e-12 * max(1.0, abs(b))
 
 
+def restarts_of(rec):
+    """the epochs after which a behaviour of TrainCtlOpt discards every object (its "start" events but the first)"""
+    return frozenset(ev["e"] for ev in rec["olog"][1:] if ev["op"] == "start")
+
+
+def expected_rates(rec, rs):
+    """the specification's optimizer: -> (epoch -> group rates after a (re)start there, epoch -> group rates after its
+    update).  TrainCtlOpt behaviours carry them (olog); in the standard set-up (configured initial rate, state
+    directory) every group holds the recorded rate whatever the restarts (TrainCtl!OptimizerHasRate)."""
+    if "olog" in rec:
+        return (dict((ev["e"], ev["lrs"]) for ev in rec["olog"] if ev["op"] == "start"),
+                dict((ev["e"], ev["lrs"]) for ev in rec["olog"] if ev["op"] == "update"))
+    up = dict((r["epoch"], [r["lrk"]] * GROUPS) for r in rec["rows"])
+    up[0] = [0] * GROUPS
+    return dict((e, up[e]) for e in set(rs) | {0}), up
+
+
 def replay_one(job):
     """job = (rec, restart_set, keep_lb, base_dir) -> list of (sig, detail, case)"""
     rec, rs, keep_lb, base = job
@@ -40,13 +66,22 @@ def replay_one(job):
     d = tempfile.mkdtemp(dir=base)
     case = dict(p=rec["p"], rows=rec["rows"], conts=rec["conts"], best=rec["best"], besttrn=rec.get("besttrn"),
                 ustr=rec["ustr"], restarts=sorted(rs), keep_lb=keep_lb)
+    if "olog" in rec:
+        case["olog"] = rec["olog"]
+    at_start, at_update = expected_rates(rec, rs)
     rows = [dict(r, ustr=u) for r, u in zip(rec["rows"], rec["ustr"])]
 
     def bad(site, kind, detail):
         out.append((dict(site=site, kind=kind), detail, case))
 
     try:
-        sim = _tc.Sim(d, rec["p"], keep_lb=keep_lb, entries=ENT)
+        sim = _tc.Sim(d, rec["p"], keep_lb=keep_lb, entries=ENT, groups=GROUPS)
+        std = _tc.setup_of(rec["p"]) == (1, 0, 1)
+        legend = "(k = recorded rate 2^-k, -g = the rate group g was constructed with, %d = neither)" % _tc.OFF_GRID
+        if sim.opt_abs() != at_start[0]:
+            # which rates the optimizer starts with is the documentation's, not the property's (in the standard set-up
+            # the comparison after the first update judges it)
+            out.append((None, "optimizer_set_up", None))
         nrows = len(rows)
         for i, row in enumerate(rows):
             e = row["epoch"]
@@ -56,13 +91,17 @@ def replay_one(job):
                 except Exception as ex:
                     bad("restart", "exception", "constructing a controller on the files after epoch %d raised %r" % (e - 1, ex))
                     return out
+                if sim.opt_abs() != at_start[e - 1]:
+                    if e > 1 and _tc.setup_of(rec["p"])[2]:
+                        # history file AND state directory: "reproduces ... the same ... learning rates"
+                        bad("restart", "optimizer_lr", "after restart at epoch %d the optimizer's groups hold %r = %r, specification: %r %s" % (
+                            e - 1, sim.opt_lrs(), sim.opt_abs(), at_start[e - 1], legend))
+                    else:  # from the history file alone nothing is loaded: what the new optimizer holds is not the property's
+                        out.append((None, "optimizer_set_up", None))
                 if e > 1:
-                    lrs = sim.opt_lrs()
-                    want = _tc.FACTOR ** rec["rows"][i - 1]["lrk"]
-                    if not all(_close(x, want) for x in lrs):
-                        bad("restart", "optimizer_lr", "after restart at epoch %d optimizer lr %r, recorded %r" % (e - 1, lrs, want))
                     if sim.ctl.get_last_epoch() != e - 1:
                         bad("restart", "last_epoch", "get_last_epoch()=%r after restart, expected %d" % (sim.ctl.get_last_epoch(), e - 1))
+            lrs_before = sim.opt_lrs()
             try:
                 cont = sim.update(row)
             except Exception as ex:
@@ -77,9 +116,25 @@ def replay_one(job):
             want = _tc.row_as_csv(row, ENT)
             if not _close(info["lr"], want["lr"]):
                 bad("update_for_epoch", "lr_reduction", "epoch %d recorded lr %r, rule says %r" % (e, info["lr"], want["lr"]))
-            lrs = sim.opt_lrs()
-            if not all(_close(x, want["lr"]) for x in lrs):
-                bad("update_for_epoch", "optimizer_lr", "epoch %d optimizer lr %r, expected %r" % (e, lrs, want["lr"]))
+            prevk = rows[i - 1]["lrk"] if i else 0
+            if row["lrk"] != prevk or std:
+                # the rate was reduced: "writes the new rate into the optimizer", every group (standard set-up: the
+                # optimizer carries the recorded rate throughout)
+                if sim.opt_abs() != at_update[e]:
+                    bad("update_for_epoch", "optimizer_lr", "epoch %d (recorded rate 2^-%d, previous 2^-%d): the optimizer's groups hold %r = %r, "
+                        "specification: %r %s" % (e, row["lrk"], prevk, sim.opt_lrs(), sim.opt_abs(), at_update[e], legend))
+            elif sim.opt_lrs() != lrs_before:
+                # "never otherwise": no reduction, so no group may move - except onto the recorded rate itself (the
+                # specification leaves the groups alone, as the code does; re-writing the unchanged recorded rate into a
+                # group that held another one multiplies nothing and is not ruled out by the property: informational)
+                after = sim.opt_abs()
+                if any(x != y and a != row["lrk"] for x, y, a in zip(lrs_before, sim.opt_lrs(), after)):
+                    bad("update_for_epoch", "optimizer_lr", "epoch %d did not reduce the rate (recorded 2^-%d) but the optimizer's groups went "
+                        "from %r to %r" % (e, row["lrk"], lrs_before, sim.opt_lrs()))
+                else:
+                    out.append((None, "optimizer_set_up", None))
+            elif sim.opt_abs() != at_update[e]:
+                out.append((None, "optimizer_set_up", None))
             for name, typ, _ in _tc.Sim.ENTRIES_NOTE:
                 if name not in info or type(info[name]) is not typ or info[name] != want[name]:
                     bad("get_info", "user_entry", "epoch %d entry %s = %r (%s), expected %r (%s)" % (
@@ -255,7 +310,10 @@ def restart_patterns(rng, n, exhaustive, quick=False):
 
 
 def run(ctx):
-    ctx.rule = ("[roll-back: TrainCtlRb, every run of <= 4 epochs rolled back once to any earlier epoch and carried on; a seeded "
+    ctx.rule = ("[parameter groups: every replay uses a two-group optimizer; TrainCtl_groups + TrainCtlOpt: optimizer's default rate / "
+                "group 2 with its own rate / history file alone, restarts after every subset of epochs; a seeded sample of the "
+                "exported behaviours (each with its uninterrupted companion) replayed, the groups' rates compared after every load "
+                "and update] [roll-back: TrainCtlRb, every run of <= 4 epochs rolled back once to any earlier epoch and carried on; a seeded "
                 "sample of the exported behaviours replayed on one controller and on rebuilt ones] "
                 "TLC: every parameter setting x every metric history (see tlc_runs) with restarts anywhere; replay: every "
                 "behaviour of the replay config on a real controller under restart patterns {none, seeded subset; thorough adds after-every-epoch"
@@ -279,7 +337,9 @@ def run(ctx):
     ths = [threading.Thread(target=job, args=(design[0], 7)), threading.Thread(target=job, args=(design[1], 2)),
            threading.Thread(target=job, args=("replay_" + tag, 2)),
            threading.Thread(target=job, args=("rb_design_" + tag, 3 if ctx.quick else 8, MOD_RB, "TrainCtlRb")),
-           threading.Thread(target=job, args=("rb_replay_" + tag, 2, MOD_RB, "TrainCtlRb"))]
+           threading.Thread(target=job, args=("rb_replay_" + tag, 2, MOD_RB, "TrainCtlRb")),
+           threading.Thread(target=job, args=("groups_" + tag, 2 if ctx.quick else 4)),
+           threading.Thread(target=job, args=("opt_replay_" + tag, 2, MOD_OPT, "TrainCtlOpt"))]
     for th in ths:
         th.start()
     for th in ths:
@@ -291,6 +351,17 @@ def run(ctx):
         tlc.require_ok(res, "TrainCtl/" + name)
         tlc.require_covered(res, ACTIONS, "TrainCtl/" + name)
         ctx.add_tlc("TrainCtl/" + name, res)
+    res = got["groups_" + tag]
+    tlc.require_ok(res, "TrainCtl/groups")
+    tlc.require_covered(res, ACTIONS, "TrainCtl/groups")
+    ctx.add_tlc("TrainCtl/groups_" + tag, res)
+    res = got["opt_replay_" + tag]
+    tlc.require_ok(res, "TrainCtlOpt/replay")
+    tlc.require_covered(res, ACTIONS_OPT, "TrainCtlOpt/replay")
+    ctx.add_tlc("TrainCtlOpt/replay_" + tag, res)
+    optrecs = res.records
+    if not optrecs:
+        raise MachineryError("no optimizer-life behaviours exported")
     res = got["rb_design_" + tag]
     tlc.require_ok(res, "TrainCtlRb/design")
     tlc.require_covered(res, ACTIONS_RB, "TrainCtlRb/design")
@@ -320,6 +391,37 @@ def run(ctx):
         exh = (not ctx.quick) and n <= 4 and ctx.rng.random() < 0.05  # every subset of restarts for a seeded 5 %
         for rs in restart_patterns(ctx.rng, n, exh, ctx.quick):
             jobs.append((rec, rs, ctx.rng.random() < 0.7, base))
+    # the optimizer's life (TrainCtlOpt): a seeded sample of (parameters, metric history), each with the uninterrupted
+    # behaviour and some of those with restarts (the specification chose where)
+    groups = {}
+    for rec in optrecs:
+        groups.setdefault((tuple(sorted(rec["p"].items())), tuple(r["val"] for r in rec["rows"])), []).append(rec)
+    for g in groups.values():
+        g.sort(key=lambda r: sorted(restarts_of(r)))
+
+    def foreign(rec):
+        """a reduction hits a group that does not hold the recorded rate (own rate / new object nothing was loaded into)"""
+        evs = rec["olog"]
+        return any(b["op"] == "update" and b["lrs"] != a["lrs"] and len(set(a["lrs"])) + len(set(b["lrs"])) > 2 or
+                   b["op"] == "update" and b["lrs"] != a["lrs"] and a["lrs"][0] != b["lrs"][0] - 1 for a, b in zip(evs, evs[1:]))
+
+    if not any(foreign(r) and r["p"]["SD"] == 0 and restarts_of(r) for r in optrecs) or \
+            not any(foreign(r) and r["p"]["OG"] == 1 for r in optrecs):
+        raise MachineryError("TrainCtlOpt universe is vacuous: no reduction ever meets a group holding another rate than the recorded one")
+    keys = sorted(groups)
+    n_opt = min(len(keys), 700 if ctx.quick else 3000)
+    ctx.extra["optimizer_life_behaviours_exported"] = len(optrecs)
+    n_optjobs = 0
+    for key in ctx.rng.sample(keys, n_opt):
+        g = groups[key]
+        if restarts_of(g[0]):
+            raise MachineryError("TrainCtlOpt exported no uninterrupted behaviour for %r" % (key,))
+        others = g[1:]
+        picked = [g[0]] + (ctx.rng.sample(others, min(len(others), 2)) if ctx.quick else others)
+        for rec in picked:
+            jobs.append((rec, restarts_of(rec), ctx.rng.random() < 0.7, base))
+            n_optjobs += 1
+    ctx.extra["optimizer_life_behaviours_replayed"] = n_optjobs
     # roll-back behaviours: a seeded sample of the exported ones, each on one controller and on rebuilt ones
     rbrecs.sort(key=lambda r: (sorted(r["p"].items()), [(x["epoch"], x["val"]) for x in r["log"]]))
     n_rb = min(len(rbrecs), 700 if ctx.quick else 6000)
@@ -354,6 +456,8 @@ def run(ctx):
     by_beh = {}
     for (rec, rs, keep_lb, _), out in zip(jobs, results):
         key = (tuple(sorted(rec["p"].items())), tuple(r["val"] for r in rec["rows"]))
+        if "olog" in rec:
+            key = key + ("opt",)
         nontrivial = any(not c for c in rec["conts"]) or any(r["lrk"] > 0 or r["esres"] > 0 or r["rres"] > 0 for r in rec["rows"])
         ctx.case(key=(key, sorted(rs)), nontrivial=nontrivial, n=len(rec["rows"]),
                  sample=dict(params=rec["p"], val_metrics=[r["val"] for r in rec["rows"]], restarts_after=sorted(rs),
@@ -361,7 +465,7 @@ def run(ctx):
         ctx.traces += 1
         for sig, detail, case in out:
             if sig is None:
-                ctx.count("informational_countdown_divergence")
+                ctx.count("informational_countdown_divergence" if detail == "countdown" else "informational_optimizer_set_up_divergence")
             elif sig == "csv":
                 by_beh.setdefault(key, {})[frozenset(rs)] = detail
             else:
@@ -375,6 +479,11 @@ def run(ctx):
                 ctx.violation(dict(site="restart", kind="history_differs"),
                               "history recorded with restarts after %s differs from the uninterrupted run" % sorted(rs),
                               dict(p=dict(key[0]), vals=list(key[1]), restarts=sorted(rs), uninterrupted=base_text, restarted=text))
+    ctx.assumptions += ["a group's rate is projected to: k (= lr0 * factor^k, the recorded rates), 'the rate this group was "
+                        "constructed with' (123 / 77 when the initial rate is configured, else 1 = lr0 and 3), or 'neither'",
+                        "from the history file alone (no state directory) the optimizer's rates right after a restart are "
+                        "not judged (nothing is loaded: they are the constructor's, as the specification says); what is judged "
+                        "is that the next reduction writes the recorded rate into every group"]
     if not ctx.samples:
         rec = recs[len(recs) // 2]
         ctx.samples.append(dict(params=rec["p"], val_metrics=[r["val"] for r in rec["rows"]], decisions=rec["conts"]))
@@ -395,6 +504,8 @@ def replay(ctx, case):
                 ctx.violation(sig, detail, c)
         return
     rec = dict(p=case["p"], rows=case["rows"], conts=case["conts"], best=case["best"], ustr=case["ustr"])
+    if case.get("olog"):
+        rec["olog"] = case["olog"]
     if case.get("besttrn"):
         rec["besttrn"] = case["besttrn"]
     out = replay_one((rec, frozenset(case["restarts"]), case["keep_lb"], ctx.workdir))
